@@ -173,6 +173,54 @@ CLAIMED = {
   "PDA hashing is an oracle (Section variable). borsh / bincode primitives are modelled and tied by the correspondence. The multisig "
   "signer tail of owner-signed token instructions is outside the bindings' argument space (proved not expressible, noted). The "
   "reference crates define 'reference'. Found and fixed D17 (RecoverNested owner_ata writable)."),
+ "C12": (
+  "Coq theorems (coq/Properties/C12.v, axiom-free) over an executable model of Init<T> validation (init.rs, seeded.rs, account.rs, "
+  "borsh_account.rs, single_set.rs system_create_account both branches) running against a stated system-program/runtime simulator: for all "
+  "ledgers, balances, sizes, rent functions, PDA functions, account kinds, seed arguments and funders, a successful `create` yields owner = "
+  "program, data = discriminant ++ initial bytes with exact length (BorshAccount: discriminant ++ zeros and the value held), lamports >= "
+  "min_balance, funder debit = max 0 (min_balance - initial lamports) = the account's gain, every other account unchanged and the lamport "
+  "total unchanged; `create` on an account with an owner or data is an error; create-if-needed on an initialised account returns false with "
+  "ledger and CPI log untouched; the signer seeds of every CPI are the validated seeds with bump (and the funder's own), present whenever the "
+  "new account is marked signer, after the address was checked against them. The source form the theorems are about is pinned (TOPUP_FIXED = "
+  "true regenerated from single_set.rs); the shipped top-up is refuted by witness (D5, fixed). Tie: 3.4k (quick) / 60k (thorough) generated "
+  "cases + corpus through the real Init<Signer|Seeded<Account|BorshAccount<T>>> with Create/CreateIfNeeded in four argument forms, three "
+  "funder kinds, cached or explicit, on native accounts with the CPI hook driving the same simulator in Rust; result code, every account "
+  "before/after and the full CPI log (ix, lamports, space, owner, metas, signer seeds) compared with the extracted model, and the property "
+  "predicate evaluated in Python on the implementation alone.",
+  "PARTIAL: system program + CPI privilege rules are an oracle (coq/Rent/Ledger.v = harness/src/rent_sim.rs, agreement checked by the tie). "
+  "min_balance, create_/find_program_address are abstract functions (min_balance >= 0 is the only fact used); PDAs in cases are recomputed in "
+  "Python. BorshAccount bytes are persisted at cleanup (C15). Funder distinct from the new account. Found and fixed D5 (top-up `.max(1)`) and "
+  "D10 (create-if-needed slice-index panic on a foreign account shorter than the discriminant)."),
+ "C13": (
+  "Coq theorems (coq/Properties/C13.v, axiom-free) over an executable model of normalize_rent / refund_rent / receive_rent / close_account and "
+  "the cleanup arguments with explicit or cached funder/recipient (single_set.rs 200-299, account.rs 47-110, context.rs, validate.rs cache "
+  "wiring): for all ledgers, balances, data sizes and rent functions, normalize leaves exactly min_balance(len), refund (repaired form, "
+  "pinned REFUND_FIXED = true) leaves >= the minimum and moves exactly max 0 (balance - minimum) to the recipient without a CPI, receive "
+  "raises to max(balance, minimum) taking exactly the shortfall from the funder, a zero-lamport account is returned unchanged by all three, "
+  "close leaves 0 lamports and discriminant-size bytes of 0xFF and credits the whole balance to the recipient; every operation through every "
+  "cleanup argument conserves the lamport total; with all balances and the supply below 2^64 no operation panics; cached `()` arguments use "
+  "the first cached funder/recipient and fail with EmptyFunderCache/EmptyRecipientCache when none. The shipped refund_rent is refuted by two "
+  "witnesses (D14, fixed). Tie: 3.6k (quick) / 60k (thorough) cases + corpus through the real trait methods and AccountSetCleanup impls "
+  "(explicit, cached via derived sets with #[validate(funder|recipient)], empty cache, pre-cached other account) on native accounts with the "
+  "simulator behind the CPI hook; balances {0, 1, half, min+-1, min, far above, 2^64-1-others}, sizes w..300, rent {0..10^9}/byte x {1.0, 2.0}.",
+  "PARTIAL: same oracle and trusted base as C12. Funder/recipient distinct from the account (as in the property). BorshAccount's rent cleanups "
+  "serialise first (C15). Cases outside the domain (read-only / foreign account, supply >= 2^64, where the debug build panics on overflow and "
+  "the model says Panic too) are compared with the model only. Found and fixed D14."),
+ "C17": (
+  "Proof (Rocq, coq/Properties/C17.v, 15 theorems, axiom-free) of the layout half for every source-level unsized shape and every well-formed "
+  "value (C17_layout_faithful: the IDL type emitted for a shape decodes the serializer's bytes to the embedded value; prefix and functional "
+  "forms), of the account-list half for every account-set shape under one-definition-per-key (C17_accounts_faithful: the flattened IDL "
+  "account list equals the client metas in order, flags, optional placeholder and fixed addresses; consistency derived from type identity "
+  "when sets are keyed by full type name), and of the Codama account order / discriminant value lemmas (every width up to 8 bytes converts "
+  "and preserves the value). Structural validity (verifier alone in Compatibility mode, StrictGraph with referenced IDLs), determinism "
+  "(two-process emit) and the conversion of the shipped programs are established by the harness run on every check: 9 programs (System, "
+  "Token, Associated Token, 5 example programs, a 13-instruction harness program with a cross-program reference), ~10k items per quick run, "
+  "independent Python decoder / flattener, 6.7k model/implementation ties.",
+  "PARTIAL: the model follows five switches read from the source each run (tools/gen_extra_c17.py); for the shipped settings the faithful "
+  "model refuted the statement (generic sets sharing a key D15, Option of a multi-field set D24, one-field sets D23, Codama guard D11: all "
+  "fixed); the refutations stay proved with witnesses. The theorems range over `sty` (erased to the C05 universe `ty`); each derived type "
+  "has one definition per occurrence in the model. Codama naming and PDA defaults are compared by the harness only. Known finding D25: an "
+  "IDL referencing another program's account type does not verify alone in Compatibility mode."),
  "C20": (
   "11 Coq theorems (coq/Properties/C20.v, axiom-free): the model of `sf new` is all-or-nothing for every injection oracle over "
   "mkdir / open / write / rename calls, every well-formed initial file-system state, every name, key and staging tag; an existing "
